@@ -1,5 +1,6 @@
 import TpmProofs.ShapeMsg
 import TpmProofs.Props.C14E
+import TpmProofs.Props.C14W
 import TpmProofs.MsgPump
 import TpmProofs.Props.C04
 import TpmProofs.Props.C16
